@@ -249,6 +249,11 @@ fn cmd_gen(args: &[String]) {
         ev.insert("opts".into(), serde_json::to_value(&case.opts).unwrap());
         ev.insert("src_sha".into(), json!(project::hash_bytes(src.as_bytes())));
         ev.insert("src_len".into(), json!(src.len()));
+        if let Some(p) = &case.fmt_plan {
+            ev.insert("fmt_plan".into(), json!(p));
+            ev.insert("fmt_late".into(), json!(case.fmt_late));
+            ev.insert("size_class".into(), json!(case.size_class.clone().unwrap_or_else(|| "small".into())));
+        }
         writeln!(out, "{}", tlc_safe(Value::Object(ev))).unwrap();
 
         // work budget: well above the quadratic bound judged by C20, so that exceeding it is decisive
@@ -259,7 +264,29 @@ fn cmd_gen(args: &[String]) {
             let n = ir["nodes"].as_u64().unwrap_or(0) + ir["types"].as_u64().unwrap_or(0) + ir["globals"].as_u64().unwrap_or(0) + 8;
             4 * n * n + 10_000
         };
+        // formatter fault plan (C19): stub first on PATH, or no formatter at all
+        let orig_path = std::env::var("PATH").unwrap_or_default();
+        if let Some(plan) = &case.fmt_plan {
+            let stubs = std::env::var("VERIF_STUB_DIR").expect("VERIF_STUB_DIR");
+            if plan == "absent" {
+                std::env::set_var("PATH", std::env::var("VERIF_EMPTY_DIR").expect("VERIF_EMPTY_DIR"));
+            } else {
+                std::env::set_var("PATH", format!("{stubs}:{orig_path}"));
+                std::env::set_var("VERIF_FMT_PLAN", plan);
+            }
+            if case.fmt_late {
+                wgsl_to_wgpu::verif::set_sync(Some(Box::new(|point: &str| {
+                    if point == "fmt.spawned" {
+                        std::thread::sleep(std::time::Duration::from_millis(150));
+                    }
+                })));
+            }
+        }
         let oc = call_generator(&src, &case.opts, detail, budget);
+        if case.fmt_plan.is_some() {
+            std::env::set_var("PATH", &orig_path);
+            wgsl_to_wgpu::verif::set_sync(None);
+        }
         for h in &oc.hooks {
             // hook lines are already JSON; pass through the sanitiser
             match serde_json::from_str::<Value>(h) {
@@ -276,6 +303,16 @@ fn cmd_gen(args: &[String]) {
         obs.insert("oracle".into(), orc.json.clone());
         if !oc.renders.is_null() {
             obs.insert("renders".into(), oc.renders.clone());
+        }
+        if case.opts.rustfmt {
+            // reference: the same call with the formatter off
+            let mut o2 = case.opts.clone();
+            o2.rustfmt = false;
+            let r = call_generator(&src, &o2, 0, budget);
+            if let Some(t) = &r.text {
+                obs.insert("ref_tokens_sha".into(), json!(project::tokens_sha(t).unwrap_or_else(|| "unparsable".into())));
+                obs.insert("ref_len".into(), json!(t.len()));
+            }
         }
         if let Some(text) = &oc.text {
             obs.insert("text_sha".into(), json!(project::hash_bytes(text.as_bytes())));
